@@ -386,13 +386,13 @@ func scaleFamily(c *Config, g *gen) {
 		}
 	}
 	// bare matrices: many rows, many columns, a single long row
-	run(100003, func(n int) { emitMx(c, "sc-mx", g.sparseDense(n, 5, 2), n%2 == 0) })
+	run(32769, func(n int) { emitMx(c, "sc-mx", g.sparseDense(n, 5, 2), n%2 == 0) }) // (the shape oracle is quadratic in the rows)
 	run(100003, func(n int) { emitMx(c, "sc-mx", g.sparseDense(2, n, 3), n%2 == 1) })
 	run(100003, func(n int) { emitMx(c, "sc-mx", g.sparseDense(1, n, 1+n/3), true) })
 	// burndown: samples, bands, files, ownership table (the model of the history codec is linear: no -xl)
-	run(100003, func(n int) { emitBd(c, "sc-bd", scaleBd(g.sparseDense(n, 6, 2))) })
+	run(32769, func(n int) { emitBd(c, "sc-bd", scaleBd(g.sparseDense(n, 6, 2))) })
 	run(100003, func(n int) { emitBd(c, "sc-bd", scaleBd(g.sparseDense(3, n, 4))) })
-	run(4099, func(n int) { emitBd(c, "sc-bd", g.bdFiles(n)) })
+	run(2051, func(n int) { emitBd(c, "sc-bd", g.bdFiles(n)) })
 	run(65537, func(n int) { emitBd(c, xl("sc-bd", n), g.bdOwnership(n)) })
 	// devs: ticks, developers of one tick, languages of one developer
 	run(100003, func(n int) { emitDv(c, xl("sc-dv", n), g.dvTicks(n)) })
@@ -416,7 +416,7 @@ func scaleFamily(c *Config, g *gen) {
 	tri := []int{63, 64, 65, 255, 257}
 	ppl := []int{8, 9, 63, 64, 65, 257, 1029}
 	if c.Thorough() {
-		tri = append(tri, 511, 513, 1025)
+		tri = append(tri, 511, 513) // (a 1025 x 1025 triangle has 5*10^5 cells: the extracted list functions are not tail recursive)
 		ppl = append(ppl, 255, 256, 511, 513, 1024, 1025)
 	}
 	for _, n := range tri {
